@@ -32,6 +32,19 @@ type c18Val struct {
 	Name    string   `query:"name" form:"name" json:"name" xml:"name"`
 	On      bool     `query:"on" form:"on" json:"on" xml:"on"`
 	Tags    []int    `query:"tags" form:"tags" json:"tags" xml:"tags"`
+	A       string   `query:"a" form:"a" json:"a" xml:"a"`
+}
+
+// rules that live only inside slice elements
+type c18Item struct {
+	SKU string `json:"sku" xml:"sku" validate:"required|minLen:3"`
+	Qty int    `json:"qty" xml:"qty" validate:"min:1"`
+}
+
+type c18Order struct {
+	XMLName xml.Name  `xml:"order" json:"-"`
+	Note    string    `json:"note" xml:"note"`
+	Items   []c18Item `json:"items" xml:"items"`
 }
 
 type c18Rule struct {
@@ -264,6 +277,33 @@ func c18Run(c c18Case, st *fw.Stats) []fw.Viol {
 				}
 			}
 		}
+		// rules that sit only in the element type of a slice
+		if c.Format == "json" || c.Format == "xml" {
+			binding.ResetValidator()
+			skus := []string{"", "ab", "abc"}
+			for n := 0; n <= 2; n++ {
+				for i := 0; i < 9; i++ {
+					var items []c18Item
+					for k := 0; k < n; k++ {
+						items = append(items, c18Item{SKU: skus[(i/(1+2*k))%3], Qty: (i + k) % 2})
+					}
+					st.Evals++
+					st.Nontrivial++
+					want := c18Order{Note: "n", Items: items}
+					req := c18Request("POST", c.Format, nil, want)
+					var got c18Order
+					var err error
+					if pv := try(func() { err = binding.Auto(req, &got) }); pv != nil {
+						add("validator:panic", fmt.Sprintf("%s bind of %+v panicked: %v", c.Format, want, pv))
+						continue
+					}
+					got.XMLName = xml.Name{}
+					if err == nil && !validate.Struct(&got).Validate() {
+						add("validator:bind-succeeded-on-invalid", fmt.Sprintf("%s, validator enabled: binding %+v succeeded although an independent validation of the bound struct (rules inside slice elements) fails", c.Format, got))
+					}
+				}
+			}
+		}
 		binding.ResetValidator()
 	case "malformed":
 		maxLen := c.MaxLen
@@ -311,6 +351,14 @@ func c18Run(c c18Case, st *fw.Stats) []fw.Viol {
 						st.Nontrivial++
 						if err == nil {
 							add("malformed:xml-accepted", fmt.Sprintf("malformed XML %q was bound without error: %+v", body, obj))
+						}
+					}
+				case "form":
+					// a body net/url cannot parse is malformed input, even if some pairs of it are fine
+					if _, perr := url.ParseQuery(body); perr != nil {
+						st.Nontrivial++
+						if err == nil {
+							add("malformed:form-accepted", fmt.Sprintf("malformed urlencoded body %q was bound without error: %+v", body, obj))
 						}
 					}
 				default:
